@@ -42,6 +42,9 @@ import (
 const (
 	c26CanaryName    = "CANARYNAME"
 	c26CanaryContent = "CANARY-CONTENT"
+	// '#' occurs only in outside files (as the tail of every one of them), so that a resumed
+	// download returning just a suffix of an outside file is still recognised
+	c26CanaryTail = "-########"
 )
 
 type c26Link struct {
@@ -80,13 +83,13 @@ func c26Build(base string, n int, spec c26Spec) *c26Box {
 	outside := func(dir, tag string) {
 		ftMustMkdir(filepath.Join(dir, c26CanaryName+"_dir"))
 		ftMustMkdir(filepath.Join(dir, "sub", "deep"))
-		ftMustWrite(filepath.Join(dir, c26CanaryName+"_"+tag+"_a.txt"), c26CanaryContent+"-"+tag+"-a", 0o644)
-		ftMustWrite(filepath.Join(dir, c26CanaryName+"_dir", c26CanaryName+"_"+tag+"_b.txt"), c26CanaryContent+"-"+tag+"-b", 0o600)
+		ftMustWrite(filepath.Join(dir, c26CanaryName+"_"+tag+"_a.txt"), c26CanaryContent+"-"+tag+"-a"+c26CanaryTail, 0o644)
+		ftMustWrite(filepath.Join(dir, c26CanaryName+"_dir", c26CanaryName+"_"+tag+"_b.txt"), c26CanaryContent+"-"+tag+"-b"+c26CanaryTail, 0o600)
 		// same relative names as the inside tree, so that a request shape that is fine inside
 		// finds something when it is redirected
-		ftMustWrite(filepath.Join(dir, "f0.txt"), c26CanaryContent+"-"+tag+"-f0", 0o644)
-		ftMustWrite(filepath.Join(dir, "sub", "f1.txt"), c26CanaryContent+"-"+tag+"-f1", 0o640)
-		ftMustWrite(filepath.Join(dir, "sub", "deep", "f2.txt"), c26CanaryContent+"-"+tag+"-f2", 0o600)
+		ftMustWrite(filepath.Join(dir, "f0.txt"), c26CanaryContent+"-"+tag+"-f0"+c26CanaryTail, 0o644)
+		ftMustWrite(filepath.Join(dir, "sub", "f1.txt"), c26CanaryContent+"-"+tag+"-f1"+c26CanaryTail, 0o640)
+		ftMustWrite(filepath.Join(dir, "sub", "deep", "f2.txt"), c26CanaryContent+"-"+tag+"-f2"+c26CanaryTail, 0o600)
 	}
 	inside(b.allowed)
 	outside(filepath.Join(b.root, "outside"), "out")
@@ -94,7 +97,7 @@ func c26Build(base string, n int, spec c26Spec) *c26Box {
 	if spec.AllowedName != "allowed" {
 		outside(filepath.Join(b.root, norm.NFD.String(spec.AllowedName)), "nfd") // NFD twin of the NFC allowed name
 	}
-	ftMustWrite(filepath.Join(b.root, c26CanaryName+"_top.txt"), c26CanaryContent+"-top", 0o644)
+	ftMustWrite(filepath.Join(b.root, c26CanaryName+"_top.txt"), c26CanaryContent+"-top"+c26CanaryTail, 0o644)
 	switch spec.Form {
 	case "dir":
 		b.patterns = []string{b.allowed}
@@ -182,6 +185,21 @@ func (b *c26Box) classify(path string, nfdTwin bool) string {
 	if !filepath.IsAbs(path) {
 		return "lexical"
 	}
+	// the path as given, walked the way the kernel would: a ".." that follows a symbolic link
+	// leaves through the link's target, not through the lexical parent
+	lex := "/"
+	for _, c := range strings.Split(path, "/") {
+		switch c {
+		case "", ".":
+		case "..":
+			if fi, err := os.Lstat(lex); err == nil && fi.Mode()&os.ModeSymlink != 0 && strings.HasPrefix(lex, b.root+"/") {
+				return "symlink-dotdot"
+			}
+			lex = filepath.Dir(lex)
+		default:
+			lex = filepath.Join(lex, c)
+		}
+	}
 	clean := filepath.Clean(path)
 	if !b.insideAllowed(clean) {
 		return "lexical"
@@ -263,6 +281,7 @@ type c26Req struct {
 	Mode     string `json:"mode,omitempty"`
 	NFDTwin  bool   `json:"nfd_twin,omitempty"`
 	Shape    string `json:"shape"`
+	Offset   string `json:"offset,omitempty"` // download-offset: 1, small, size-1, size, beyond
 	// upload-dir-deep only: the archive entries ("reg name", "sym name -> target",
 	// "hard name -> source"), names relative to Path
 	Entries []c26TarEntry `json:"entries,omitempty"`
@@ -406,7 +425,26 @@ func (b *c26Box) do(q c26Req) c26Out {
 		var isDir bool
 		var err error
 		if q.Action == "download-offset" {
-			rd, _, _, isDir, err = h.ReadFileForDownloadAtOffset(meta.Path, 3, meta.Compress)
+			// as Agent.sendFileDownload does for Meta.Offset > 0: stat the path as given, then
+			// hand the path as given to the offset reader
+			info, statErr := os.Stat(meta.Path)
+			if statErr != nil {
+				o.note = "stat: " + statErr.Error()
+				return o
+			}
+			off := int64(1)
+			switch q.Offset {
+			case "small":
+				off = 3
+			case "size-1":
+				off = max(info.Size()-1, 1)
+			case "size":
+				off = max(info.Size(), 1)
+			case "beyond":
+				off = info.Size() + 5
+			}
+			meta.Offset = off
+			rd, _, _, isDir, err = h.ReadFileForDownloadAtOffset(meta.Path, meta.Offset, meta.Compress)
 		} else {
 			rd, _, _, isDir, err = h.ReadFileForDownload(meta.Path, meta.Compress)
 		}
@@ -429,11 +467,10 @@ func (b *c26Box) do(q c26Req) c26Out {
 					o.data = append(o.data, body)
 				}
 			}
+		} else if q.Compress {
+			o.data = append(o.data, c26Gunzip(raw)) // judge the payload, not the gzip framing
 		} else {
 			o.data = append(o.data, raw)
-			if q.Compress {
-				o.data = append(o.data, c26Gunzip(raw))
-			}
 		}
 	case "upload":
 		body := []byte("UPLOAD-CONTENT-file")
@@ -590,6 +627,9 @@ func c26GenReq(rng *verifkit.Rand, b *c26Box) (q c26Req) {
 	q.Compress = rng.Bool()
 	q.Recurse = rng.Chance(2, 3)
 	q.Mode = verifkit.Pick(rng, []string{"0777", "0600", "0000", "0755"})
+	if q.Action == "download-offset" {
+		q.Offset = verifkit.Pick(rng, []string{"1", "small", "size-1", "size", "beyond", "1", "small"})
+	}
 	wantNew := (q.Action == "upload" || q.Action == "upload-dir") && rng.Chance(2, 3)
 	defer func() {
 		if q.Action == "upload-dir-deep" {
@@ -600,7 +640,58 @@ func c26GenReq(rng *verifkit.Rand, b *c26Box) (q c26Req) {
 	if b.spec.Form == "two" && rng.Chance(1, 4) {
 		start = filepath.Join(b.root, "second")
 	}
-	switch x := rng.Intn(20); {
+	x := rng.Intn(20)
+	if x >= 9 && x < 13 && len(b.spec.Links) == 0 {
+		x = 0
+	}
+	switch {
+	case x >= 9 && x < 13:
+		// <link>/.. : lexically the link's own directory (inside the allowed tree), really the
+		// parent of the link's target. Then 0..2 steps down what is really there (the names
+		// need not exist lexically), all built by string concatenation so that nothing is
+		// cleaned away; ./, // and a trailing /. are mixed in.
+		q.Shape = "link-dotdot"
+		l := b.spec.Links[rng.Intn(len(b.spec.Links))]
+		p := b.root + "/" + l.At
+		sep := func() string { return verifkit.Pick(rng, []string{"/", "/", "/", "/./", "//"}) }
+		p += sep() + ".."
+		if rng.Chance(1, 5) {
+			p += sep() + ".."
+		}
+		// an upload may legitimately create what the path names lexically (inside the allowed
+		// tree): keep canary names out of paths that can create
+		creates := strings.HasPrefix(q.Action, "upload")
+		for d, depth := 0, rng.Range(0, 3); d < depth; d++ {
+			var names []string
+			if ents, err := os.ReadDir(p); err == nil { // resolved by the kernel, links first
+				for _, e := range ents {
+					if !creates || !strings.Contains(e.Name(), c26CanaryName) {
+						names = append(names, e.Name())
+					}
+				}
+			}
+			if len(names) == 0 {
+				if d == 0 {
+					fb := []string{"f0.txt", "sub/f1.txt", "sub/deep/f2.txt"}
+					if !creates {
+						fb = append(fb, c26CanaryName+"_top.txt")
+					}
+					p += sep() + verifkit.Pick(rng, fb)
+				}
+				break
+			}
+			p += sep() + verifkit.Pick(rng, names)
+			if fi, err := os.Stat(p); err != nil || !fi.IsDir() {
+				break
+			}
+		}
+		if wantNew {
+			p += sep() + "new.bin"
+		}
+		if rng.Chance(1, 6) {
+			p += "/."
+		}
+		q.Path = p
 	case x < 13: // walk
 		q.Shape = "walk"
 		p := start
@@ -640,6 +731,9 @@ func c26GenReq(rng *verifkit.Rand, b *c26Box) (q c26Req) {
 		case 2:
 			p = strings.Replace(p, "/sub", "/emptydir/../sub", 1)
 			q.Shape = "walk+dotdot-noop"
+		case 3:
+			p += "/."
+			q.Shape = "walk+trailing-dot"
 		}
 		q.Path = p
 	case x < 17: // lexical attacks
@@ -692,7 +786,7 @@ func TestVerif_C26(t *testing.T) {
 	r.Rule("one evaluation = one request (download / resumed download / file upload / directory upload / list / stat / chmod / delete / roots) carried through the real " +
 		"StreamHandler on a PRNG sandbox with 0..4 symlinks (final component, parent directory, chains, dangling, relative and absolute) and an allowed-path form from " +
 		"{dir, dir/**, dir/*, two dirs, *, []}; non-trivial = request whose path, followed naively, names something outside the allowed directories (symlink-parent, symlink-final, " +
-		"symlink-dangling, lexical, ctrl, unicode classes, a directory upload whose archive entries lie below links of the tree (archive-through-link), or any request under []); distinct by (form, links, action, path relative to the sandbox)")
+		"symlink-dangling, symlink-dotdot (a \"..\" right after a link, path handed over un-cleaned), lexical, ctrl, unicode classes, a directory upload whose archive entries lie below links of the tree (archive-through-link), or any request under []); distinct by (form, links, action, path relative to the sandbox)")
 	r.Assume("the oracle observes persistent effects outside the allowed directories and canaries in returned bytes/names; a stat/readdir of an outside object whose result is not returned is not observed")
 	r.Assume("the agent call sites (internal/agent/agent.go handleFileTransfer*/BrowseFiles) are mirrored (Validate*Metadata then Write/Read with meta.Path), not executed")
 	base := ftTempBase(t)
@@ -724,7 +818,7 @@ func TestVerif_C26(t *testing.T) {
 			ch := ftDiff(b.snap, after)
 			rel := strings.ReplaceAll(q.Path, b.root, "$ROOT")
 			hostile := class != "nosymlink" && class != "star-config"
-			r.Eval(fmt.Sprintf("%s|%v|%s|%s|%v%v%s|%v", spec.Form, spec.Links, q.Action, rel, q.Compress, q.Recurse, q.Mode, q.Entries), hostile)
+			r.Eval(fmt.Sprintf("%s|%v|%s%s|%s|%v%v%s|%v", spec.Form, spec.Links, q.Action, q.Offset, rel, q.Compress, q.Recurse, q.Mode, q.Entries), hostile)
 			r.Add("req_"+q.Action, 1)
 			r.Add("class_"+class, 1)
 			if out.accepted {
@@ -736,6 +830,12 @@ func TestVerif_C26(t *testing.T) {
 				r.Add("refused", 1)
 			}
 			r.Add("returned_names", len(out.names))
+			if q.Action == "download-offset" {
+				for _, d := range out.data {
+					r.Add("resumed_download_bytes", len(d))
+				}
+				r.Add("resume_offset_"+q.Offset, 1)
+			}
 			for _, d := range out.data {
 				r.Add("returned_bytes", len(d))
 			}
@@ -760,7 +860,7 @@ func TestVerif_C26(t *testing.T) {
 			}
 			leak := ""
 			for _, d := range out.data {
-				if bytes.Contains(d, []byte(c26CanaryContent)) {
+				if bytes.Contains(d, []byte(c26CanaryContent)) || bytes.IndexByte(d, '#') >= 0 {
 					leak = "leak-content"
 				}
 				if spec.Form == "empty" && len(d) > 0 {
@@ -806,6 +906,8 @@ func TestVerif_C26(t *testing.T) {
 	r.Require("returned_bytes", 1000)
 	r.Require("returned_names", 200)
 	r.Require("class_archive-through-link", 200)
+	r.Require("class_symlink-dotdot", 300)
+	r.Require("resumed_download_bytes", 500)
 	r.Require("deep_archive_entries_2+_levels", 300)
 	r.Require("deep_archive_hardlink_entries", 100)
 }
